@@ -5,6 +5,15 @@ HERE = os.path.dirname(os.path.abspath(__file__))
 BASELINE = "cd /repo && /venv/bin/python -m pytest -ra -q -p no:cacheprovider --timeout=900 --continue-on-collection-errors"
 
 CLAIMED = {
+    'C11': dict(
+        design='4.11',
+        text='Deductive proof of the lookup kernel: for IndexTransforms, MaskedTransforms, ReorderedTransforms, UniformDerivedTransforms and DerivedTransforms a harness composes the REAL '
+             '__getitem__ and index_with_tail bodies and proves index_with_tail(self[i] + tail) == (i, tail) for every valid i, sequence length, mask/permutation/offset table and tail '
+             '(modular: the parent sequence is abstract with the same contract); foreign chains raise ValueError (Index, Masked); negative indices alias; Axis.map/unmap are mutual inverses incl. periodic axes.',
+        note='Trusted: pyvc executor; numpy.searchsorted (with sortedness proved at each call site), argsort-of-permutation and cumsum axioms; L-MONO. Assumed: A-NF (uppermost/canonical keep a '
+             'derived transform at the head of the tail), documented class preconditions, structural induction over nesting. Outside / not built: PlainTransforms, StructuredTransforms, ChainedTransforms, '
+             'canonical/uppermost/promote map preservation, TransformIndex/TransformCoords evaluation, locate(), interfaces.',
+        technique='contract-based deductive verification: harness contracts over two real method bodies, ast->z3 VC generation'),
     'C13': dict(
         design='4.13',
         text='Deductive proof of the specification-handling kernel: function._argument_to_array item lemma for every spelling (dict, pairs, string, sequence of strings) x key kind '
@@ -73,7 +82,7 @@ NOT_APPLICABLE = {
     'C02': 'whole-DAG faithful translation into generated numpy programs: no function-level postcondition carries it; would need a denotational semantics of ~150 node classes and of the generated code (DESIGN 4.2)',
     'C03': 'history/non-interference property of a program that exists only as a generated string; no per-function contract expresses it (DESIGN 4.3)',
 }
-PENDING = ['C04', 'C05', 'C07', 'C08', 'C10', 'C11', 'C16', 'C17', 'C18', 'C19', 'C20']
+PENDING = ['C04', 'C05', 'C07', 'C08', 'C10', 'C16', 'C17', 'C18', 'C19', 'C20']
 
 
 def main():
